@@ -65,12 +65,13 @@ pub mod collections
 #[cfg(not(kani))]
 pub mod sched
 {
-    use std::sync::{Mutex, Condvar};
+    use std::sync::{Mutex, MutexGuard, Condvar};
     use std::cell::Cell;
 
     pub struct S
     {
         pub enabled : bool,
+        pub gen : u64,              // every start() begins a new generation; threads and channels of older ones run free
         pub cur : usize,
         pub st : Vec<u8>,           // 0 runnable, 1 waits for a packet, 2 waits for a thread to end, 3 ended
         pub wait : Vec<usize>,
@@ -82,30 +83,37 @@ pub mod sched
         pub switches : u64,
     }
 
-    pub static STATE : Mutex<S> = Mutex::new(S { enabled : false, cur : 0, st : Vec::new(), wait : Vec::new(), chan_q : Vec::new(),
+    pub static STATE : Mutex<S> = Mutex::new(S { enabled : false, gen : 0, cur : 0, st : Vec::new(), wait : Vec::new(), chan_q : Vec::new(),
         chan_sdrop : Vec::new(), policy : 0, rng : 0, deadlock : false, switches : 0 });
     pub static CV : Condvar = Condvar::new();
-    thread_local! { pub static TID : Cell<usize> = Cell::new(0); }
+    thread_local! { pub static TID : Cell<(usize, u64)> = Cell::new((0, 0)); }
 
-    pub fn me() -> usize { TID.with(|t| t.get()) }
+    fn lock() -> MutexGuard<'static, S>
+    {
+        match STATE.lock() { Ok(g) => g, Err(p) => p.into_inner() }
+    }
+
+    pub fn me() -> (usize, u64) { TID.with(|t| t.get()) }
 
     pub fn start(policy : u64)
     {
-        let mut s = STATE.lock().unwrap();
-        *s = S { enabled : true, cur : 0, st : vec![0], wait : vec![0], chan_q : Vec::new(), chan_sdrop : Vec::new(), policy : policy,
+        let mut s = lock();
+        let gen = s.gen + 1;
+        *s = S { enabled : true, gen : gen, cur : 0, st : vec![0], wait : vec![0], chan_q : Vec::new(), chan_sdrop : Vec::new(), policy : policy,
             rng : policy.wrapping_mul(0x9E3779B97F4A7C15) | 1, deadlock : false, switches : 0 };
+        TID.with(|t| t.set((0, gen)));
     }
 
     /*  -> (deadlocked, number of baton changes) */
     pub fn stop() -> (bool, u64)
     {
-        let mut s = STATE.lock().unwrap();
+        let mut s = lock();
         s.enabled = false;
         CV.notify_all();
         (s.deadlock, s.switches)
     }
 
-    pub fn enabled() -> bool { STATE.lock().unwrap().enabled }
+    fn live(s : &S, t : (usize, u64)) -> bool { s.enabled && t.1 == s.gen && t.0 < s.st.len() }
 
     fn can_run(s : &S, t : usize) -> bool
     {
@@ -146,67 +154,71 @@ pub mod sched
     pub fn pass(state : u8, on : usize)
     {
         let t = me();
-        let mut s = STATE.lock().unwrap();
-        if !s.enabled { return; }
-        s.st[t] = state;
-        s.wait[t] = on;
+        let mut s = lock();
+        if !live(&s, t) { return; }
+        if (state == 1 && on >= s.chan_q.len()) || (state == 2 && on >= s.st.len()) { return; }
+        s.st[t.0] = state;
+        s.wait[t.0] = on;
         pick(&mut s);
         CV.notify_all();
-        while s.enabled && s.cur != t && !(s.deadlock && t == 0)
+        while live(&s, t) && s.cur != t.0 && !(s.deadlock && t.0 == 0)
         {
-            s = CV.wait(s).unwrap();
+            s = match CV.wait(s) { Ok(g) => g, Err(p) => p.into_inner() };
         }
-        if s.enabled && s.deadlock && t == 0
+        if live(&s, t) && s.deadlock && t.0 == 0
         {
             drop(s);
             panic!("deadlock: every thread waits (main in join, workers for packets that no running thread will send)");
         }
     }
 
-    pub fn new_thread() -> Option<usize>
+    pub fn new_thread() -> Option<(usize, u64)>
     {
-        let mut s = STATE.lock().unwrap();
-        if !s.enabled { return None; }
+        let t = me();
+        let mut s = lock();
+        if !live(&s, t) { return None; }
         s.st.push(0);
         s.wait.push(0);
-        Some(s.st.len() - 1)
+        Some((s.st.len() - 1, s.gen))
     }
 
-    pub fn wait_turn(t : usize)
+    pub fn wait_turn(t : (usize, u64))
     {
         TID.with(|c| c.set(t));
-        let mut s = STATE.lock().unwrap();
-        while s.enabled && s.cur != t
+        let mut s = lock();
+        while live(&s, t) && s.cur != t.0
         {
-            s = CV.wait(s).unwrap();
+            s = match CV.wait(s) { Ok(g) => g, Err(p) => p.into_inner() };
         }
     }
 
-    pub struct EndGuard(pub usize);
+    pub struct EndGuard(pub (usize, u64));
     impl Drop for EndGuard
     {
         fn drop(&mut self)
         {
-            let mut s = STATE.lock().unwrap();
-            if !s.enabled { return; }
-            s.st[self.0] = 3;
+            let mut s = lock();
+            if !live(&s, self.0) { return; }
+            s.st[(self.0).0] = 3;
             pick(&mut s);
             CV.notify_all();
         }
     }
 
-    pub fn new_channel() -> Option<usize>
+    pub fn new_channel() -> Option<(usize, u64)>
     {
-        let mut s = STATE.lock().unwrap();
-        if !s.enabled { return None; }
+        let t = me();
+        let mut s = lock();
+        if !live(&s, t) { return None; }
         s.chan_q.push(0);
         s.chan_sdrop.push(false);
-        Some(s.chan_q.len() - 1)
+        Some((s.chan_q.len() - 1, s.gen))
     }
 
-    pub fn sent(c : usize) { let mut s = STATE.lock().unwrap(); if s.enabled && c < s.chan_q.len() { s.chan_q[c] += 1; } }
-    pub fn received(c : usize) { let mut s = STATE.lock().unwrap(); if s.enabled && c < s.chan_q.len() && s.chan_q[c] > 0 { s.chan_q[c] -= 1; } }
-    pub fn sender_dropped(c : usize) { let mut s = STATE.lock().unwrap(); if s.enabled && c < s.chan_sdrop.len() { s.chan_sdrop[c] = true; } }
+    pub fn sent(c : (usize, u64)) { let mut s = lock(); if s.enabled && c.1 == s.gen && c.0 < s.chan_q.len() { s.chan_q[c.0] += 1; } }
+    pub fn received(c : (usize, u64)) { let mut s = lock(); if s.enabled && c.1 == s.gen && c.0 < s.chan_q.len() && s.chan_q[c.0] > 0 { s.chan_q[c.0] -= 1; } }
+    pub fn sender_dropped(c : (usize, u64)) { let mut s = lock(); if s.enabled && c.1 == s.gen && c.0 < s.chan_sdrop.len() { s.chan_sdrop[c.0] = true; } }
+    pub fn chan_live(c : (usize, u64)) -> bool { let s = lock(); s.enabled && c.1 == s.gen && c.0 < s.chan_q.len() }
 }
 
 #[cfg(not(kani))]
@@ -217,14 +229,14 @@ pub mod thread
     pub struct JoinHandle<T>
     {
         inner : std::thread::JoinHandle<T>,
-        tid : Option<usize>,
+        tid : Option<(usize, u64)>,
     }
 
     impl<T> JoinHandle<T>
     {
         pub fn join(self) -> std::thread::Result<T>
         {
-            if let Some(t) = self.tid { sched::pass(2, t); }
+            if let Some(t) = self.tid { sched::pass(2, t.0); }
             self.inner.join()
         }
     }
@@ -256,8 +268,8 @@ pub mod mpsc
     pub use std::sync::mpsc::{SendError, RecvError};
     use super::sched;
 
-    pub struct Sender<T> { inner : std::sync::mpsc::Sender<T>, cid : Option<usize> }
-    pub struct Receiver<T> { inner : std::sync::mpsc::Receiver<T>, cid : Option<usize> }
+    pub struct Sender<T> { inner : std::sync::mpsc::Sender<T>, cid : Option<(usize, u64)> }
+    pub struct Receiver<T> { inner : std::sync::mpsc::Receiver<T>, cid : Option<(usize, u64)> }
 
     pub fn channel<T>() -> (Sender<T>, Receiver<T>)
     {
@@ -283,7 +295,7 @@ pub mod mpsc
     {
         pub fn recv(&self) -> Result<T, RecvError>
         {
-            if let Some(c) = self.cid { sched::pass(1, c); }
+            if let Some(c) = self.cid { if sched::chan_live(c) { sched::pass(1, c.0); } }
             let r = self.inner.recv();
             if let (Some(c), true) = (self.cid, r.is_ok()) { sched::received(c); }
             r
